@@ -58,7 +58,13 @@ namespace cnl {
         struct power_value_fn<S, Exponent, Radix, true, OddExponent, false> {
             [[nodiscard]] constexpr auto operator()() const
             {
-                return power_value_fn<S, (Exponent - 1), Radix>{}() * Radix;
+                constexpr auto lesser_power = power_value_fn<S, (Exponent - 1), Radix>{}();
+                using result_numeric_limits = std::numeric_limits<decltype(lesser_power * Radix)>;
+                static_assert(
+                        lesser_power <= result_numeric_limits::max() / Radix,
+                        "attempted operation will result in overflow");
+
+                return lesser_power * Radix;
             }
         };
 
